@@ -30,7 +30,8 @@ ASSUMPTIONS = ["probe battery is finite (listed in vf/props/c16.py)",
                "overridden-keyword probes place the keyword only at pass-through positions (not under anyOf/oneOf/not/contains/if)"]
 REPORT_COUNTERS = ["histories", "operations", "probes_compared", "objects_probed_after_5plus_later_ops", "op:redefine",
                    "op:redefine_many", "op:remove", "op:extend_override", "op:extend_typechecker", "op:extend_nochange",
-                   "op:create", "op:create_version", "op:validator_types", "op:checks", "op:cls_checks", "op:formats_subset"]
+                   "op:create", "op:create_version", "op:create_default_types", "op:validator_types", "op:checks",
+                   "op:cls_checks", "op:formats_subset"]
 
 TYPE_NAMES = ["array", "boolean", "integer", "null", "number", "object", "string", "any", "thing", "zz-unknown"]
 INSTANCES = [None, True, False, 0, 1, 1.0, 1.5, "", "s", [], [1], {}, {"a": 1}]
@@ -63,7 +64,7 @@ def shards(tier):
 def floors(tier):
     f = {"histories": 400, "operations": 5000, "probes_compared": 30000, "objects_probed_after_5plus_later_ops": 1000}
     for op in ("redefine", "redefine_many", "remove", "extend_override", "extend_typechecker", "extend_nochange", "create",
-               "create_version", "validator_types", "checks", "cls_checks", "formats_subset"):
+               "create_version", "create_default_types", "validator_types", "checks", "cls_checks", "formats_subset"):
         f["op:" + op] = 150
     return f
 
@@ -126,6 +127,20 @@ def probe_class(C, fc):
 def probe_validator(V, insts):
     return {"types": probe_typechecker(V.TYPE_CHECKER), "battery": [_errors(None, V.schema, i, V=V) for i in insts],
             "schema": jdump(V.schema)}
+
+
+def pristine_types_probe(C, schema, types, insts):
+    """What C(schema, types=...) gives on a class built afresh with C's public ingredients (so that nothing an
+    earlier `types=` construction may have left on C can be involved).  None when C cannot be rebuilt that way."""
+    try:
+        with warnings.catch_warnings():
+            warnings.simplefilter("ignore")
+            fresh = validators.create(meta_schema=dict(C.META_SCHEMA), validators=dict(C.VALIDATORS),
+                                      type_checker=C.TYPE_CHECKER, id_of=C.ID_OF)
+            V = fresh(schema, types=types)
+            return probe_validator(V, insts)["battery"]
+    except Exception:
+        return None
 
 
 def probe_registry():
@@ -215,7 +230,8 @@ class State:
 
 def gen_ops(rng):
     kinds = ["redefine", "redefine_many", "remove", "extend_override", "extend_typechecker", "extend_nochange", "create",
-             "create_version", "validator_types", "checks", "cls_checks", "formats_subset"]
+             "create_version", "create_default_types", "validator_types", "validator_types", "checks", "cls_checks",
+             "formats_subset"]
     ops = []
     for _ in range(rng.randrange(5, 26)):
         ops.append({"op": rng.choice(kinds), "r": rng.randrange(10 ** 6)})
@@ -326,15 +342,41 @@ def run_history(rec, ops, base_draft):
                     if mine is not C["obj"].VALIDATORS:
                         mine["vf-kw"] = kw_fn("mutated-after-create")          # editing the mapping handed over must not reach the class
                         mine.pop("type", None)
+                elif kind == "create_default_types":
+                    # classes WITHOUT an explicit type checker: the default one, or the deprecated default_types mapping
+                    C = st.pick(rng, "C")
+                    kwargs = dict(meta_schema=dict(C["obj"].META_SCHEMA), validators=dict(C["obj"].VALIDATORS), id_of=C["obj"].ID_OF)
+                    if rng.random() < 0.5:
+                        kwargs["default_types"] = {"string": str, "array": (list, tuple), "number": (int, float), "object": dict,
+                                                   "integer": int, "boolean": bool, "null": type(None)}
+                    new = validators.create(**kwargs)
+                    if rng.random() < 0.5:
+                        new = validators.extend(new)
+                    st.add("C", new, "create_default_types(%s)" % C["label"], extra=C["extra"])
                 elif kind == "validator_types":
                     C = st.pick(rng, "C")
-                    types = rng.choice([{"string": (str, int)}, {"array": (list, tuple)}, {"number": (int, float, str)}, {"integer": float}])
-                    schema = rng.choice([{"type": "string"}, {"type": "array", "items": {"type": "number"}}, {"type": ["integer", "null"]}])
+                    types = rng.choice([{"string": (str, int)}, {"array": (list, tuple)}, {"number": (int, float, str)}, {"integer": float},
+                                        {"string": (str, float), "null": (type(None), bool)}, {"object": (dict, list)}])
+                    schema = rng.choice([{"type": "string"}, {"type": "array", "items": {"type": "number"}}, {"type": ["integer", "null"]},
+                                         {"type": ["object", "null"]}, {"type": "number"}])
                     try:
                         V = C["obj"](schema, types=types)
-                        st.add("V", V, "%s(types=%r)" % (C["label"], sorted(types)), extra=INSTANCES + [(1, 2), "5"])
                     except Exception:
-                        pass
+                        V = None
+                    if V is not None:
+                        probe_insts = INSTANCES + [(1, 2), "5"]
+                        vrec = st.add("V", V, "%s(types=%r)" % (C["label"], sorted(types)), extra=probe_insts)
+                        # the same construction on a class rebuilt from the public ingredients must behave alike: what
+                        # earlier types= constructions did must not have leaked into the class
+                        try:
+                            pristine = pristine_types_probe(C["obj"], schema, types, probe_insts)
+                            if pristine is not None and pristine != vrec["vec"]["battery"]:
+                                rec.violation("types-argument-sees-earlier-constructions", dict(case, step=n, cls=C["label"], types=sorted(types)),
+                                              "%s(schema, types=%r) behaves differently from the same construction on a freshly built "
+                                              "identical class: %s" % (C["label"], sorted(types), _diff(vrec["vec"]["battery"], pristine)))
+                                return
+                        except TypeError:
+                            pass
                 elif kind == "checks":
                     F = st.pick(rng, "F")
                     name = rng.choice(["vf-one", "vf-two", "date", "ipv4", "new-%d" % n])
